@@ -377,6 +377,90 @@ theorem speed_unit_from_str_iff (s : String) (u : SpeedUnit) :
   · rintro rfl
     cases u <;> decide
 
+/-- `DistanceUnit::from_str` reads exactly the serde names (`Display` prints them), nothing else -/
+theorem distance_unit_from_str_iff (s : String) (u : DistanceUnit) :
+    unitFromStr DistanceUnit.ofName? s = some u ↔ s = u.name := by
+  constructor
+  · intro h
+    unfold unitFromStr at h
+    split at h
+    · cases h
+    · simp only [DistanceUnit.ofName?] at h
+      have := List.find?_some h
+      exact (beq_iff_eq.mp this).symm
+  · rintro rfl
+    cases u <;> decide
+
+/-- `TimeUnit::from_str` reads exactly the serde names (`Display` prints them), nothing else -/
+theorem time_unit_from_str_iff (s : String) (u : TimeUnit) :
+    unitFromStr TimeUnit.ofName? s = some u ↔ s = u.name := by
+  constructor
+  · intro h
+    unfold unitFromStr at h
+    split at h
+    · cases h
+    · simp only [TimeUnit.ofName?] at h
+      have := List.find?_some h
+      exact (beq_iff_eq.mp this).symm
+  · rintro rfl
+    cases u <;> decide
+
+/-- `EnergyUnit::from_str` reads exactly the serde names (`Display` prints them), nothing else -/
+theorem energy_unit_from_str_iff (s : String) (u : EnergyUnit) :
+    unitFromStr EnergyUnit.ofName? s = some u ↔ s = u.name := by
+  constructor
+  · intro h
+    unfold unitFromStr at h
+    split at h
+    · cases h
+    · simp only [EnergyUnit.ofName?] at h
+      have := List.find?_some h
+      exact (beq_iff_eq.mp this).symm
+  · rintro rfl
+    cases u <;> decide
+
+/-- `EnergyRateUnit::from_str` reads exactly the serde names (`Display` prints them), nothing else -/
+theorem energy_rate_unit_from_str_iff (s : String) (u : EnergyRateUnit) :
+    unitFromStr EnergyRateUnit.ofName? s = some u ↔ s = u.name := by
+  constructor
+  · intro h
+    unfold unitFromStr at h
+    split at h
+    · cases h
+    · simp only [EnergyRateUnit.ofName?] at h
+      have := List.find?_some h
+      exact (beq_iff_eq.mp this).symm
+  · rintro rfl
+    cases u <;> decide
+
+/-- `GradeUnit::from_str` reads exactly the serde names (`Display` prints them), nothing else -/
+theorem grade_unit_from_str_iff (s : String) (u : GradeUnit) :
+    unitFromStr GradeUnit.ofName? s = some u ↔ s = u.name := by
+  constructor
+  · intro h
+    unfold unitFromStr at h
+    split at h
+    · cases h
+    · simp only [GradeUnit.ofName?] at h
+      have := List.find?_some h
+      exact (beq_iff_eq.mp this).symm
+  · rintro rfl
+    cases u <;> decide
+
+/-- `WeightUnit::from_str` reads exactly the serde names (`Display` prints them), nothing else -/
+theorem weight_unit_from_str_iff (s : String) (u : WeightUnit) :
+    unitFromStr WeightUnit.ofName? s = some u ↔ s = u.name := by
+  constructor
+  · intro h
+    unfold unitFromStr at h
+    split at h
+    · cases h
+    · simp only [WeightUnit.ofName?] at h
+      have := List.find?_some h
+      exact (beq_iff_eq.mp this).symm
+  · rintro rfl
+    cases u <;> decide
+
 /-- the "soft maximum" is one and the same physical speed in every unit (75 miles per hour), within
 the property's 0.1 percent, and converting it between units lands on the other unit's own value -/
 theorem max_highway_speed_physical : ∀ u : SpeedUnit,
